@@ -5,8 +5,8 @@ CONSTANTS
   Sizes = {0, 3}
   Tamper = TRUE
   LenVals = {"zero", "dec", "inc", "i31", "i63", "max"}
-  CutOffsets = {2}
-  CutWindow = 1
+  CutOffsets = {1, 3}
+  CutWindow = 2
 VIEW view
 INVARIANTS TypeOK ReadBackIdentically ResponseWhereBodyExpected NoAdversaryNoStop GrammarRoundTrip
 CHECK_DEADLOCK FALSE
